@@ -1,14 +1,18 @@
 """C33 — compiled token-pattern matching equals the pattern language.
 
 Obligations
-  theorems      Cppcheck.Match.compiled_eq_language(+_novarid), find_first  (Lean, all patterns / all lists)
+  theorems      Lean, all patterns / all token lists / every varid (see THEOREMS; docs/C33.md has the table)
   T1            every function the real tools/matchcompiler.py generated for lib/*.cpp, re-parsed from the
-                generated C++, equals the model's `compile` of the same pattern (exhaustive over the source)
-  T2            every Token::Match / findmatch pattern literal in lib/*.cpp is `patternWF`, every
-                simpleMatch / findsimplematch literal is `simplePatternWF` (exhaustive over the source)
+                generated C++ (match and findmatch shells, with/without `end` and `varid`), equals the model's
+                `compile` of the same pattern (exhaustive over the source)                          [python obligation]
+  T2            every Token::Match / findmatch pattern literal in lib/*.cpp is `patternWF` and `noNul`, every
+                simpleMatch / findsimplematch literal is `simplePatternWF`, a call passes a varid iff the pattern
+                uses %varid% (exhaustive over the source; C string escapes are decoded first)          [python obligation]
   T3            tokTypes table of matchcompiler.py = the table in the Lean model
-  C1            real interpreted matcher == model interpB, real compiled matcher == model run∘compile
-                on generated (pattern, token list) pairs
+  C1            real interpreted Token::Match / simpleMatch / findmatch / findsimplematch (both overloads, with the
+                `end` bound) == model interpB / simpleMatchB / findInterp / findSimpleInterp, and the functions the real
+                matchcompiler.py generates for the same literals == model run∘compile / findFrom∘compile, on generated
+                (pattern, token list, varid, start, end) tuples - varid 0 and token texts with blanks included
 P_impl          compiled(p, ts) == interpreted(p, ts) on the real code
 """
 import os, re, sys, importlib.util, hashlib, random
@@ -16,19 +20,51 @@ from .. import core, build_repo
 
 ID = "C33"
 LEVEL = "proof"
-RULE = ("cases = (pattern, token list, varid) triples: patterns sampled from all literals compiled out of lib/*.cpp plus "
-        "grammar-generated ones; token lists derived from the pattern (match / near-miss / truncated inside the pattern / "
-        "extended); non-trivial = pattern has >= 2 words or an alternative/class/negation and the list is non-empty")
-EXPLANATION = ("Lean theorems: for every pattern string, token list and varid the compiled program equals the documented "
-               "language (compiled_eq_language). Tie: generated C++ of every source pattern re-parsed and compared with the model "
-               "compiler (exhaustive); interpreter modelled byte-for-byte, validated by correspondence and proved equal to the language on "
-               "well-formed patterns (interp_eq_language, hypotheses: no NUL in the pattern, no blank/NUL in token texts), hence "
-               "compiled_eq_interpreted for every well-formed pattern - and every source pattern is checked to be well-formed.")
-THEOREMS = ["Cppcheck.Match.compiled_eq_language", "Cppcheck.Match.compiled_eq_language_novarid", "Cppcheck.Match.find_first",
-            "Cppcheck.Match.interp_eq_language", "Cppcheck.Match.compiled_eq_interpreted",
-            "Cppcheck.Match.compiled_eq_interpreted_novarid", "Cppcheck.Match.simple_interp_eq_words",
-            "Cppcheck.Match.simple_language_eq_words", "Cppcheck.Match.simple_compiled_eq_interpreted"]
-MODULES = ["Cppcheck.Props.C33", "Cppcheck.Props.C33Interp"]
+RULE = ("cases = (pattern, token list, varid, start, end) tuples: patterns sampled from all literals compiled out of lib/*.cpp plus "
+        "grammar-generated ones (string-literal words included); token lists derived from the pattern (match / near-miss / truncated "
+        "inside the pattern / extended / a prefix of other tokens for the find kinds / string and char literals with blanks); varid 0 "
+        "with %varid% patterns in ~10% of the varid cases; find kinds with the end overload and end in front of / at / behind the hit; "
+        "non-trivial = pattern has >= 2 words or an alternative/class/negation and the list is non-empty")
+EXPLANATION = ("Lean theorems (unbounded): lang = the documented pattern language with its three outcomes (match / no match / InternalError "
+               "for %varid% under varid 0). interpreted_eq_language: the byte-level model of Token::Match equals lang for every well-formed "
+               "pattern, every token list without blank/NUL in a token text, every varid. compiled_eq_language_partial: the program the match "
+               "compiler emits equals lang for every pattern and every token list inside the token-type invariant TokWF when varid != 0 (or the "
+               "call has no varid argument); compiled_refines_language: under varid 0 it returns lang or throws. Hence compiled_eq_interpreted_partial "
+               "/ compiled_refines_interpreted, the simpleMatch analogues, and for the find loops find_compiled_eq_language / find_interpreted_eq_language "
+               "(FirstMatch: a hit is the first matching position of the range, nullptr means no position of the range matches) and "
+               "find_compiled_eq_interpreted_partial. docWord_iff_ofStr / docPattern_iff_parse: the classification the compiler model uses is the "
+               "grammar of the lib/token.h doc comment. The unrestricted statements are refuted by counterexample theorems for the three classes where "
+               "the real matchers differ (known findings literal-typed-token, blank-in-token-text, varid0-eager-throw, each replayed from corpus/C33). "
+               "Tie: generated C++ of every source pattern re-parsed and compared with the model compiler (exhaustive); every source pattern checked "
+               "well-formed; interpreter, compiled functions and the four find entry points compared in-process with the model on generated inputs. "
+               "Outside the model: how cppcheck assigns token types (TokWF is a premise on token lists, reported per case), patterns that are not string "
+               "literals at the call site, the --verify build mode.")
+THEOREMS = ["Cppcheck.Match.compiled_eq_language_partial", "Cppcheck.Match.compiled_refines_language",
+            "Cppcheck.Match.compiled_eq_language_nomention",
+            "Cppcheck.Match.compiled_ne_language_literal_typed_token", "Cppcheck.Match.compiled_ne_language_varid0",
+            "Cppcheck.Match.compiled_eq_language_unrestricted_false",
+            "Cppcheck.Match.find_compiled_eq_language", "Cppcheck.Match.findFrom_first", "Cppcheck.Match.findFrom_none",
+            "Cppcheck.Match.findFrom_no_throw",
+            "Cppcheck.Match.interpreted_eq_language", "Cppcheck.Match.compiled_eq_interpreted_partial",
+            "Cppcheck.Match.compiled_refines_interpreted",
+            "Cppcheck.Match.simple_interp_eq_words", "Cppcheck.Match.simple_language_eq_words", "Cppcheck.Match.simple_interp_eq_language",
+            "Cppcheck.Match.simple_compiled_eq_interpreted_partial",
+            "Cppcheck.Match.find_interpreted_eq_language", "Cppcheck.Match.find_compiled_eq_interpreted_partial",
+            "Cppcheck.Match.findFrom_eq_findInterp_partial", "Cppcheck.Match.findsimple_compiled_eq_interpreted_partial",
+            "Cppcheck.Match.findsimple_interpreted_eq_language",
+            "Cppcheck.Match.compiled_ne_interpreted_blank_token", "Cppcheck.Match.compiled_ne_interpreted_varid0",
+            "Cppcheck.Match.compiled_ne_interpreted_literal_typed_token", "Cppcheck.Match.compiled_eq_interpreted_unrestricted_false",
+            "Cppcheck.Match.interp_eq_language_unrestricted_false",
+            "Cppcheck.Match.docWord_iff_ofStr", "Cppcheck.Match.docPattern_iff_parse"]
+MODULES = ["Cppcheck.Props.C33", "Cppcheck.Props.C33Interp", "Cppcheck.Props.C33Spec"]
+ASSUMPTIONS = [
+    "TokWF on every token of the list (compiled side): a token spelled like a key of matchcompiler.py's tokTypes table has one of the listed "
+    "token types, and only names carry a varid; reported per explored case (tokwf:0/1); reachable violation = known finding literal-typed-token",
+    "TokStrOK on every token (interpreted side): no blank / NUL in a token text; reported per case (tsok:0/1); reachable violation = known finding blank-in-token-text",
+    "patternWF / simplePatternWF / noNul on the pattern: checked for every pattern literal of lib/*.cpp on every run (T2)",
+    "compiled = language needs varid != 0 or a call without varid argument; under varid 0 only the refinement holds (known finding varid0-eager-throw)",
+    "token lists are finite, `end` is either a token of the same list, nullptr, or not reachable from start (endBudget)",
+]
 
 CMD_COND = {
     'true': 'cmd:any', 'tok->isAssignmentOp()': 'cmd:assign', 'tok->isBoolean()': 'cmd:bool',
